@@ -134,9 +134,9 @@ def gen_names(ctx, n_random):
 
 def gen_dicts(ctx, n):
     rng = ctx.rng
-    keys = ['a', 'key', b'a', b'key', 'path', 'é', b'\xff\x00', '', b'', 'a=b', 'K', 'x' * 10]
+    keys = ['a', 'key', b'a', b'key', 'path', 'é', b'\xff\x00', '', b'', 'a=b', 'K', 'x' * 10, 'A', 'Key', b'KEY', 'Path', 'É']   # (keys are case-sensitive)
     vals = [None, '', b'', 'v', b'v', 'a=b', b'=', 'é', b'\x00\xff', 1, True, 0, False, 3.5, 'x' * 20]
-    out = [{}, {'a': None}, {'a': ''}, {'a': b''}, {b'a': b'1', 'a': '2'}, {'': 'x'}, {'': None}, {'a=b': 'c'}]
+    out = [{}, {'a': None}, {'a': ''}, {'a': b''}, {b'a': b'1', 'a': '2'}, {'': 'x'}, {'': None}, {'a=b': 'c'}, {'path': '/a', 'Path': '/b'}, {b'id': b'1', 'ID': None}]
     for size in (253, 254, 255, 256):
         out.append({'k': 'v' * (size - 2)})        # item of exactly `size` bytes
         out.append({b'k' * size: None})
